@@ -126,7 +126,8 @@ Definition split_media_ranges (s : bytes) : list bytes := split_media_ranges_aux
 Inductive json :=
 | JNull | JBool (v : bool) | JNum | JStr (s : bytes) | JArr (l : list json) | JObj (f : list (bytes * json)).
 
-Inductive body := BNone | BJson (j : json).
+(** [BJson j tail]: the first JSON value of the body and the bytes that follow it *)
+Inductive body := BNone | BJson (j : json) (tail : bytes).
 
 (** struct field lookup: jsoniter (ConfigDefault) matches member names ASCII-case-insensitively;
     for a repeated member the last occurrence decides (bodies with repeated members are not
@@ -261,11 +262,13 @@ Definition dec_resource_request (with_id : bool) (j : json) : option resource_re
   | _ => None
   end.
 
-(** [jsoniter.NewDecoder(r.Body).Decode(&x)] *)
+(** handler.go decodeRequestDocument: [jsoniter.Unmarshal(io.ReadAll(r.Body), &x)]; only whitespace may
+    follow the value ("there are bytes left after unmarshal") *)
+Definition is_json_space (c : N) : bool := N.eqb c 32 || N.eqb c 9 || N.eqb c 10 || N.eqb c 13.
 Definition decode_body {A} (dec : json -> option A) (bd : body) : option A :=
   match bd with
   | BNone => None
-  | BJson j => dec j
+  | BJson j tail => if forallb is_json_space tail then dec j else None
   end.
 
 (** ** The application: schema, handlers, resolvers *)
@@ -281,10 +284,20 @@ Arguments Er {A} e.
 
 Record attr_def := { ad_name : bytes; ad_resolve : N -> aoutcome }.
 
+(** ** Documents (types.Relationship comes first: custom resolvers return it) *)
+Definition links := list (bytes * bytes).
+(** types.Relationship: Links (a nil and an empty map are the same to the handler and on the wire),
+    Data (None = a nil pointer), Meta (member name, value is serialisable; [] = nil or empty) *)
+Record relationship := { rel_links : links; rel_data : option linkage; rel_meta : list (bytes * bool) }.
+
+(** a RelationshipResolver: the library's two, or an implementation of the application's own
+    ([resolve resource dataRequested], AddRelationshipMembers, RemoveRelationshipMembers) *)
 Inductive rel_resolver :=
 | ToOne (by_default : bool) (resolve : N -> result (option rid))
 | ToMany (by_default : bool) (resolve : N -> result (list rid))
-         (add remove : option (N -> list rid -> result (list rid))).
+         (add remove : option (N -> list rid -> result (list rid)))
+| Custom (resolve : N -> bool -> result relationship)
+         (add remove : N -> list rid -> result relationship).
 
 Record rel_def := { rd_name : bytes; rd_resolver : rel_resolver }.
 
@@ -312,9 +325,6 @@ Inductive call :=
 | CAdd (members : list rid)
 | CRemove (members : list rid).
 
-(** ** Documents *)
-Definition links := list (bytes * bytes).
-Record relationship := { rel_links : links; rel_data : option linkage }.     (* types.Relationship *)
 Record item := {                                                            (* types.Resource *)
   i_type : bytes; i_id : bytes;
   i_attrs : list (bytes * bool);               (* name, value is serialisable *)
@@ -373,7 +383,9 @@ Definition wdata_of (d : option pdata) : wdata :=
   | Some (PLinkage l) => wdata_of_linkage l
   end.
 
-Definition item_marshals (i : item) : bool := forallb snd (i_attrs i).
+Definition relationship_marshals (r : relationship) : bool := forallb snd (rel_meta r).
+Definition item_marshals (i : item) : bool :=
+  forallb snd (i_attrs i) && forallb (fun nr => relationship_marshals (snd nr)) (i_rels i).
 Definition data_marshals (d : option pdata) : bool :=
   match d with
   | Some (PItem i) => item_marshals i
@@ -412,9 +424,10 @@ Definition valid_status (s : bytes) : option Z :=
 Record config := {
   fix_fallback : bool;     (* marshal-failure fallback is a JSON:API error document *)
   fix_accept_lists : bool; (* Accept header values are split into media ranges *)
-  fix_status : bool        (* an error status that is not a valid HTTP status is not "carried" *)
+  fix_status : bool;       (* an error status that is not a valid HTTP status is not "carried" *)
+  fix_nil_data : bool      (* a relationship without Data at a related-resource endpoint is a 500, not a nil dereference *)
 }.
-Definition fixed : config := {| fix_fallback := true; fix_accept_lists := true; fix_status := true |}.
+Definition fixed : config := {| fix_fallback := true; fix_accept_lists := true; fix_status := true; fix_nil_data := true |}.
 
 Record request := {
   rq_method : bytes;
@@ -423,6 +436,16 @@ Record request := {
   rq_query : list bytes;           (* keys of r.URL.Query() *)
   rq_body : body
 }.
+
+(** Links[k] = v on a map kept as an association list *)
+Fixpoint set_link (k v : bytes) (l : links) : links :=
+  match l with
+  | [] => [(k, v)]
+  | (k', v') :: r => if bytes_eqb k k' then (k, v) :: r else (k', v') :: set_link k v r
+  end.
+
+Definition linkage_only (l : linkage) : relationship := {| rel_links := []; rel_data := Some l; rel_meta := [] |}.
+Definition no_relationship : relationship := {| rel_links := []; rel_data := None; rel_meta := [] |}.
 
 Section Model.
   Variable cfg : config.
@@ -446,58 +469,53 @@ Section Model.
     if fix_accept_lists cfg then flat_map split_media_ranges headers else headers.
 
   (** *** resolvers.go *)
-  Definition no_relationship : relationship := {| rel_links := []; rel_data := None |}.
-
   Definition resolve_relationship (r : rel_resolver) (v : N) (data_requested : bool) : result relationship :=
     match r with
     | ToOne by_default resolve =>
         if data_requested || by_default then
           match resolve v with
           | Er e => Er e
-          | Ok None => Ok {| rel_links := []; rel_data := Some LNull |}
-          | Ok (Some id) => Ok {| rel_links := []; rel_data := Some (LOne id) |}
+          | Ok None => Ok (linkage_only LNull)
+          | Ok (Some id) => Ok (linkage_only (LOne id))
           end
         else Ok no_relationship
     | ToMany by_default resolve _ _ =>
         if data_requested || by_default then
           match resolve v with
           | Er e => Er e
-          | Ok ids => Ok {| rel_links := []; rel_data := Some (LMany ids) |}      (* nil -> [] *)
+          | Ok ids => Ok (linkage_only (LMany ids))      (* nil -> [] *)
           end
         else Ok no_relationship
+    | Custom resolve _ _ => resolve v data_requested
     end.
 
   Definition method_not_allowed : err := error_for 405.
 
-  Definition change_members (pick : rel_resolver -> option (option (N -> list rid -> result (list rid))))
-                            (r : rel_resolver) (v : N) (members : list rid) : result relationship * bool :=
-    match pick r with
-    | None => (Er method_not_allowed, false)                       (* to-one *)
-    | Some None => (Er method_not_allowed, false)                  (* AddMembers / RemoveMembers == nil *)
-    | Some (Some f) =>
-        match f v members with
-        | Er e => (Er e, true)
-        | Ok ids => (Ok {| rel_links := []; rel_data := Some (LMany ids) |}, true)   (* nil -> [] *)
+  (** AddRelationshipMembers ([add = true]) / RemoveRelationshipMembers; the flag: the application was called *)
+  Definition change_members (add : bool) (r : rel_resolver) (v : N) (members : list rid) : result relationship * bool :=
+    match r with
+    | ToOne _ _ => (Er method_not_allowed, false)
+    | ToMany _ _ a rm =>
+        match (if add then a else rm) with
+        | None => (Er method_not_allowed, false)                  (* AddMembers / RemoveMembers == nil *)
+        | Some f =>
+            match f v members with
+            | Er e => (Er e, true)
+            | Ok ids => (Ok (linkage_only (LMany ids)), true)   (* nil -> [] *)
+            end
         end
+    | Custom _ a rm => ((if add then a else rm) v members, true)
     end.
-  Definition pick_add (r : rel_resolver) :=
-    match r with ToOne _ _ => None | ToMany _ _ add _ => Some add end.
-  Definition pick_remove (r : rel_resolver) :=
-    match r with ToOne _ _ => None | ToMany _ _ _ remove => Some remove end.
 
   (** *** resource.go *)
-  Fixpoint set_link (k v : bytes) (l : links) : links :=
-    match l with
-    | [] => [(k, v)]
-    | (k', v') :: r => if bytes_eqb k k' then (k, v) :: r else (k', v') :: set_link k v r
-    end.
-
-  (** addStandardRelationshipLinks *)
+  (** addStandardRelationshipLinks: a fresh map with the two standard links, then every link of the
+      resolver's map is copied over it (the resolver's own self / related win); the resolver's map
+      itself is only read *)
   Definition add_standard_links (id : rid) (name : bytes) (rel : relationship) : relationship :=
     let std := [ (s_related, slash ++ r_type id ++ slash ++ r_id id ++ slash ++ name);
                  (s_self, slash ++ r_type id ++ slash ++ r_id id ++ slash ++ s_relationships ++ slash ++ name) ] in
     {| rel_links := fold_left (fun m kv => set_link (fst kv) (snd kv) m) (rel_links rel) std;
-       rel_data := rel_data rel |}.
+       rel_data := rel_data rel; rel_meta := rel_meta rel |}.
 
   Definition attr_errors (v : N) (l : list attr_def) : list err :=
     flat_map (fun d => match ad_resolve d v with AErr e => [e] | AVal _ => [] end) l.
@@ -608,7 +626,7 @@ Section Model.
             match lookup_rel t name with
             | None => (GNil, None)
             | Some def =>
-                let '(r, called) := change_members (if add then pick_add else pick_remove) (rd_resolver def) v members in
+                let '(r, called) := change_members add (rd_resolver def) v members in
                 (match r with
                  | Er e => GErr e
                  | Ok rel => GOk (add_standard_links id name rel)
@@ -726,7 +744,8 @@ Section Model.
                   | GOk relationship =>
                       let self := [(s_self, rq_path rq)] in
                       match rel_data relationship with
-                      | None => NilDeref                              (* dereference of relationship.Data *)
+                      | None => if fix_nil_data cfg then Return (resp_status 500 None)
+                                else NilDeref                         (* dereference of relationship.Data *)
                       | Some (LOne rel_id) =>
                           match get_resource rel_id with
                           | GErr e => Return (resp_errors [e] None)
@@ -747,7 +766,7 @@ Section Model.
                   | GNil => FallThrough None
                   | GOk relationship =>
                       match rel_data relationship with
-                      | None => NilDeref
+                      | None => if fix_nil_data cfg then Return (resp_status 500 None) else NilDeref
                       | Some (LOne related_id) =>
                           match lookup_type sch (r_type related_id) with
                           | Some related_type => handle_patch_resource_request rq related_type related_id
